@@ -89,6 +89,8 @@ JudgeTri(e) ==
     ELSE IF e.kind \in {"udt", "hull_cdt"} THEN JudgeTilesHull(e.tris, e.p.ps)
     ELSE JudgeTilesPolygon(e.tris, e.p.ps)
 
+\* every lattice point of the bounding window of the vertices (one unit of margin): the witnesses for the piece regions
+Window(V) == (SetMin({v[1] : v \in V}) - 1 .. SetMax({v[1] : v \in V}) + 1) \X (SetMin({v[2] : v \in V}) - 1 .. SetMax({v[2] : v \in V}) + 1)
 \* ---- stitching
 RingOK(r) == Len(r) >= 4 /\ r[1] = r[Len(r)]
 RECURSIVE SumHoles(_, _)
@@ -101,11 +103,9 @@ JudgeStitch(e) ==
     IF \E i \in DOMAIN r : ~RingOK(r[i].ext) \/ \E h \in DOMAIN r[i].holes : ~RingOK(r[i].holes[h]) THEN "ring_not_closed"
     ELSE IF SumArea2(r, 1) # SumTriA2(e.tris, 1) THEN "stitch_area"
     ELSE IF \E i \in DOMAIN r : Area2(r[i].ext) <= 0 \/ \E h \in DOMAIN r[i].holes : Area2(r[i].holes[h]) >= 0 THEN "ring_direction"
-    ELSE IF \E w \in F2 : MPolyPos(w, e.p.ps) # "B" /\ In(r, w) # In(e.p.ps, w) THEN "stitch_region"
+    ELSE IF \E w \in Window(PolyVerts(e.p.ps)) : MPolyPos(w, e.p.ps) # "B" /\ In(r, w) # In(e.p.ps, w) THEN "stitch_region"
     ELSE "ok"
 
-\* every lattice point of the bounding window of the vertices (one unit of margin): the witnesses for the piece regions
-Window(V) == (SetMin({v[1] : v \in V}) - 1 .. SetMax({v[1] : v \in V}) + 1) \X (SetMin({v[2] : v \in V}) - 1 .. SetMax({v[2] : v \in V}) + 1)
 \* ---- monotone subdivision
 PieceRing(m) == m.top \o Tail(Rev(m.bot))
 XMono(cs) == \A i \in 1 .. Len(cs) - 1 : cs[i][1] <= cs[i + 1][1]
